@@ -406,7 +406,9 @@ def oracle_pcgls(meta, x, k, maxit, tol):
     Pinv = np.linalg.inv(np.array(meta["P"], dtype=float))
     s0 = np.linalg.norm(Pinv.T @ ne_resid(meta["A"], meta["b"], meta["shift"], meta["x0"]))
     s = np.linalg.norm(Pinv.T @ ne_resid(meta["A"], meta["b"], meta["shift"], x))
-    if s > 1.001 * tol * s0 + 1e-12:
+    A_ = np.asarray(meta["A"], dtype=float)
+    floor = 1e-12 * (np.linalg.norm(Pinv.T @ (A_.T @ np.asarray(meta["b"], dtype=float))) + np.linalg.norm(Pinv.T @ (A_.T @ (A_ @ np.asarray(meta["x0"], dtype=float)))))
+    if s > 1.001 * tol * s0 + floor:      # floor: rounding level of evaluating the residual, relative to the scale of the data
         kind = "pcgls_shift" if meta["shift"] != 0 else "pcgls"
         return kind, ("PCGLS(shift=%s) stopped after %d iterations with |P^-T(A^T(b-Ax)-shift*x)| = %.3e > tol*|s0| = %.3e (x=%s)"
                       % (meta["shift"], k, s, tol * s0, x))
@@ -418,12 +420,14 @@ def oracle_fista(meta, x, abstol):
     A = np.array(meta["A"], dtype=float); b = np.array(meta["b"], dtype=float); x = np.asarray(x, dtype=float)
     g = A.T @ (A @ x - b)
     pk = meta["prox"]
-    eps = 20 * abstol / meta["t"] + 1e-9
+    sA, sb = meta.get("scaleA", 1.0), meta.get("scaleb", 1.0)          # dyadic scale factors of A and b (1 in the unscaled cells)
+    eps = 20 * abstol / meta["t"] + 1e-9 * sA * sb                       # gradient scale
+    epsx = 20 * abstol / (meta["t"] * sA * sA) + 1e-9 * sb / sA          # scale of x
     n = len(x)
     if pk["kind"] == "l1":
         lam = pk["strength"]
         for i in range(n):
-            if abs(x[i]) > eps:
+            if abs(x[i]) > epsx:
                 if abs(g[i] + lam * np.sign(x[i])) > eps:
                     return "L1 KKT violated at coordinate %d: x=%r grad=%r lambda=%r" % (i, x[i], g[i], lam)
             elif abs(g[i]) > lam + eps:
@@ -435,9 +439,9 @@ def oracle_fista(meta, x, abstol):
         lo = np.zeros(n) if pk["lo"] is None else np.broadcast_to(np.array(pk["lo"], dtype=float), (n,))
         up = np.ones(n) if pk["up"] is None else np.broadcast_to(np.array(pk["up"], dtype=float), (n,))
     for i in range(n):
-        if x[i] < lo[i] - eps or x[i] > up[i] + eps:
+        if x[i] < lo[i] - epsx or x[i] > up[i] + epsx:
             return "returned point outside the constraint set at coordinate %d: %r not in [%r,%r]" % (i, x[i], lo[i], up[i])
-        at_lo, at_up = abs(x[i] - lo[i]) <= eps, abs(x[i] - up[i]) <= eps
+        at_lo, at_up = abs(x[i] - lo[i]) <= epsx, abs(x[i] - up[i]) <= epsx
         if not at_lo and not at_up and abs(g[i]) > eps:
             return "interior coordinate %d has non-zero gradient %r" % (i, g[i])
         if at_lo and not at_up and g[i] < -eps:
@@ -660,7 +664,7 @@ def case_fista_conv(meta):
     x, k = drive_fista(meta, meta["maxit"], meta["abstol"])
     n = len(meta["x0"])
     fired = k < meta["maxit"]
-    bound = 2 * meta["abstol"] + 1e-12
+    bound = 2 * meta["abstol"] + 1e-12 * meta.get("scaleb", 1.0) / meta.get("scaleA", 1.0)
     expr = "%s && check_fista_cert %s %s %s %s %s %s %s" % (cbool(fired), cnat(n), cqmat(meta["A"]), cqvec(meta["b"]), cprox(meta["prox"]),
                                                            cq(meta["t"]), cqvec(x), cq(bound))
     fail = oracle_fista(meta, x, meta["abstol"]) if fired else None
@@ -935,6 +939,17 @@ def gen_lsq_meta(rng, shape, shiftcell, start, form):
     return {"A": A.astype(int).tolist(), "b": b, "x0": x0, "shift": shift, "form": form, "shape": shape, "start": start}
 
 
+def scale_lsq(me, sA, sb):
+    """A * sA, b * sb, shift * sA^2 (dyadic: exact); the solution scales by sb/sA, the conditioning is unchanged"""
+    me = dict(me)
+    me["A"] = [[v * sA for v in row] for row in me["A"]]
+    me["b"] = [v * sb for v in me["b"]]
+    if "shift" in me:
+        me["shift"] = me["shift"] * sA * sA
+    me["scaleA"], me["scaleb"] = sA, sb
+    return me
+
+
 def metas(ctx):
     rng = ctx.rng
     out = []
@@ -961,13 +976,18 @@ def metas(ctx):
                     me2["x0"] = [rng.choice([-1, 1]) * rng.randint(3, 9) for _ in me2["x0"]]
                     me2["start"] = "random"
                 out.append(dict(me2, op="cgls_solve", stopcell=stopcell))
-            # the stopping rule is RELATIVE to |s_0|: tiny and large right-hand sides (dyadic scaling keeps the data exact)
+            # data SCALE (dyadic factors keep the data exact): the stopping rule is RELATIVE to |s_0| and the recurrences are homogeneous;
+            # b * s, A * s (shift * s^2 so that the conditioning is that of the unscaled problem), both
             if form in ("dense", "fun") or ctx.thorough:
-                for sc_name, sc in [("rhs*2^-30", 2.0 ** -30), ("rhs*2^10", 2.0 ** 10)]:
-                    me3 = gen_lsq_meta(rng, shape, shiftcell, "zero", form)
-                    me3["b"] = [v * sc for v in me3["b"]]
+                for sc_name, sA, sb in [("rhs*2^-30", 1.0, 2.0 ** -30), ("rhs*2^10", 1.0, 2.0 ** 10), ("A*2^-15", 2.0 ** -15, 1.0), ("A*2^15", 2.0 ** 15, 1.0),
+                                        ("both*2^-30", 2.0 ** -30, 2.0 ** -30), ("both*2^30", 2.0 ** 30, 2.0 ** 30)]:
+                    me3 = scale_lsq(gen_lsq_meta(rng, shape, shiftcell, "zero", form), sA, sb)
                     me3.update(tol=1e-6, maxit=100, start="zero")
                     out.append(dict(me3, op="cgls_solve", stopcell="tol1e-6/" + sc_name))
+                    if sA != 1.0 and form == "dense":
+                        me4 = scale_lsq(gen_lsq_meta(rng, shape, shiftcell, start, form), sA, sb)
+                        me4["x0"] = [v * sb / sA for v in me4["x0"]]
+                        out.append(dict(me4, op="cgls_iters", K=min(len(me4["A"]), len(me4["x0"])) + 1, start=start + "/" + sc_name))
     # degenerate starts: x0 already the solution (gamma_0 = 0), zero right-hand side
     for form in ["dense", "fun"]:
         A = [[1, 0], [0, 2], [0, 0]]
@@ -1032,6 +1052,14 @@ def metas(ctx):
             if shiftcell == "0":
                 out.append(dict(me, op="pcgls_iters", K=min(len(me["A"]), n) + 1))
             out.append(dict(me, op="pcgls_solve", tol=1e-6, maxit=100))
+            if shiftcell == "0" and (form, pinv) in [("dense", "explicit"), ("sparse", "spsolve")] and (pkind in ("diagonal", "general") or ctx.thorough):
+                sc_name, sA, sb = rng.choice([("rhs*2^-30", 1.0, 2.0 ** -30), ("rhs*2^30", 1.0, 2.0 ** 30), ("A*2^-15", 2.0 ** -15, 1.0), ("A*2^15", 2.0 ** 15, 1.0),
+                                              ("both*2^30", 2.0 ** 30, 2.0 ** 30)])
+                mes = scale_lsq(me, sA, sb)
+                mes["x0"] = [v * sb / sA for v in mes["x0"]]
+                mes["pkind"] = pkind + "/" + sc_name
+                out.append(dict(mes, op="pcgls_iters", K=min(len(mes["A"]), n) + 1))
+                out.append(dict(mes, op="pcgls_solve", tol=1e-6, maxit=100))
     # ---- FISTA / ISTA ----
     proxcells = [("l1", lambda: {"kind": "l1", "strength": 1, "direct": True}),
                  ("l1*s", lambda: {"kind": "l1", "strength": rng.choice([0.5, 2, 0.25, 4])}),
@@ -1063,6 +1091,21 @@ def metas(ctx):
                     # abstol is an ABSOLUTE tolerance on |x_new - x_old|: a large right-hand side (|x| ~ 2^12) separates it from a relative one
                     me4 = dict(me, b=[v * 2.0 ** 12 for v in me["b"]], x0=[0] * n, start="zero")
                     out.append(dict(me4, op="fista_conv", maxit=400000, abstol=1e-6, proxcell=pc + "/rhs*2^12"))
+    # data scale: A * sA, b * sb; step, regularisation strength, box and abstol follow the scale (t ~ 1/sA^2, lambda ~ sA sb, x ~ sb/sA)
+    for (pc, adaptive), (sc_name, sA, sb) in zip(itertools.product(["l1*s", "nonneg", "box-scalar"], [True, False]),
+                                                 [("A*2^-10", 2.0 ** -10, 1.0), ("A*2^10", 2.0 ** 10, 1.0), ("rhs*2^-20", 1.0, 2.0 ** -20), ("rhs*2^20", 1.0, 2.0 ** 20),
+                                                  ("both*2^15", 2.0 ** 15, 2.0 ** 15), ("A*2^8,rhs*2^-8", 2.0 ** 8, 2.0 ** -8)]):
+        for _ in range(reps):
+            me = scale_lsq(gen_lsq_meta(rng, "over", "0", "zero", "dense"), sA, sb)
+            n = len(me["x0"])
+            A = np.array(me["A"], dtype=float)
+            xs_ = sb / sA
+            pk = ({"kind": "l1", "strength": rng.choice([0.5, 2, 1]) * sA * sb} if pc == "l1*s" else {"kind": "nonneg"} if pc == "nonneg"
+                  else {"kind": "box", "lo": rng.choice([-1.0, -0.5, 0.0]) * xs_, "up": rng.choice([0.5, 1.0, 2.0]) * xs_})
+            me.update(prox=pk, proxcell=pc + "/" + sc_name, adaptive=adaptive, t=2.0 ** -int(np.ceil(np.log2(float(np.sum(A * A))))), stepcell="dyadic")
+            del me["shift"]
+            out.append(dict(me, op="fista_runs", K=6, abstol=0.0))
+            out.append(dict(me, op="fista_conv", maxit=400000, abstol=1e-8 * xs_))
     # abstol that fires early, maxit <= 1
     for adaptive in [True, False]:
         me = gen_lsq_meta(rng, "over", "0", "random", "dense")
@@ -1107,7 +1150,9 @@ def metas(ctx):
         for lab, k, co, x0, nu0 in LM_CORPUS:
             rho = nu0 / 4.0 ** k
             me = {"co": [list(c) for c in co], "x0": x0, "nu0": nu0, "sparse": sparse, "sigma": 2.0 ** k, "cell": "engineered/%s/sigma2^%d" % (lab, k)}
-            out.append(dict(me, op="lm_trace", K=40))
+            if sparse and not ctx.thorough and not lab.startswith("reject@nu=0"):
+                continue
+            out.append(dict(me, op="lm_trace", K=ctx.n(16, 40)))
             if rho <= 16:
                 out.append(dict(me, op="lm_conv1", maxit=5000, gradtol=1e-6, must_converge=True, use_nu0=True, rho_class="harmless",
                                 cell="n1/engineered/%s/sigma2^%d" % (lab, k)))
@@ -1123,7 +1168,7 @@ def metas(ctx):
                 co[0][1] = sg
             me = {"co": co, "x0": rng.randint(-8, 8) / 2, "nu0": 2.0 ** lr * sg * sg, "sparse": sparse, "sigma": sg,
                   "cell": "sigma2^%d/rho2^%d" % (k, lr)}
-            out.append(dict(me, op="lm_trace", K=ctx.n(30, 40)))
+            out.append(dict(me, op="lm_trace", K=ctx.n(12, 30)))
             out.append(dict(me, op="lm_conv1", maxit=5000, gradtol=1e-6, must_converge=True, use_nu0=True, rho_class="harmless", cell="n1/sigma2^%d/rho2^%d" % (k, lr)))
     # two unknowns (Rosenbrock residuals and the random family) x residual scale x relative floor; oracle: stationarity before OR at maxit
     for k, lr in itertools.product(LM_SCALES + [None], LM_RHOS):
@@ -1206,6 +1251,17 @@ def run(ctx):
         warnings.simplefilter("ignore")
         for me in [W_PCGLS_SHIFT, W_MAXIMIZE_INFO, W_MIN_NOJAC, W_LM_NAN, W_LM_FLOOR] + metas(ctx):
             cases.append(build_case(me, _r.Random(int(hashlib.sha1(json.dumps(me, sort_keys=True, default=str).encode()).hexdigest()[:8], 16))))
+    # the LM traces are the expensive terms (~0.3 s of rational arithmetic per LM step): spread them evenly over the shards
+    heavy = [c for c in cases if c.meta.get("op") == "lm_trace"]
+    light = [c for c in cases if c.meta.get("op") != "lm_trace"]
+    if heavy:
+        every = max(1, len(light) // len(heavy))
+        cases = []
+        for i, c in enumerate(light):
+            cases.append(c)
+            if i % every == every - 1 and heavy:
+                cases.append(heavy.pop(0))
+        cases += heavy
     ctx.note("LM trace branches visited (number of traces): %s" % dict(LM_BRANCHES))
     return Result(cases=cases, rule=RULE, extra={"lm_trace_branches_visited": dict(LM_BRANCHES)},
                   assumptions=["float rounding is not modelled: CGLS/FISTA/LM iterates are compared with the model's exact rationals within 1e-9, PCGLS iterates within 1e-6 "
